@@ -98,6 +98,10 @@ ReadEscape == /\ At(i) = "bt"
                      c == IF e = 0 THEN <<>> ELSE SubSeq(lit, i + 1, e - 1)
                      r == EscapeOf(c)
                  IN IF e > 0 /\ r.ok THEN out' = out \o r.chars /\ i' = e + 1 /\ UNCHANGED soft
+                    ELSE IF e = i + 1
+                    THEN \* two adjacent back-ticks: a back-tick text that is EMPTY - "kept literally", and whichever way a failed
+                         \* escape is delimited (up to the partner back-tick / up to the character that spoils the name) it ends here
+                         out' = out \o <<"bt", "bt">> /\ i' = i + 2 /\ UNCHANGED soft
                     ELSE IF e > 0 /\ NextBt(e + 1) = 0 /\ (\A j \in 1..Len(c) : c[j] \notin {opener, Closer(opener)})
                     THEN \* "any other back-tick text is kept literally": unambiguous when no further back-tick follows and the
                          \* text holds no quote of the literal's own family (quotes of other families are ordinary characters)
